@@ -249,6 +249,18 @@ def check(recipe) -> list[Fail]:
                 Rs = np.array([_proper_R(op[1] + 7 * c) for c in range(nc)])
                 ens.rotate(Rs)
                 model.coords = np.array([model.coords[c] @ Rs[c] for c in range(nc)]).reshape((nc, na, 3))
+            elif name == "blank_collect":
+                # frames collected into a BLANK ensemble (ConformerEnsemble() adopts the size of what comes first): charge-less geometries
+                # first, a molecule afterwards - the three arrays describe the same conformers and atoms after every append
+                k_at = 1 + op[1] % 4
+                blank = ml.ConformerEnsemble()
+                for j_, kind_ in enumerate(["CartesianGeometry", "CartesianGeometry", "Molecule"][: 2 + op[1] % 2]):
+                    g_ = (ml.CartesianGeometry if kind_ == "CartesianGeometry" else ml.Molecule)(["C"] * k_at, coords=[[0.5 * j_ + i_, -1.0 * i_, 0.25] for i_ in range(k_at)])
+                    blank.append(g_)
+                    shp_ = (np.shape(blank.coords), np.shape(blank.atomic_charges), np.shape(blank.weights))
+                    if shp_ != ((j_ + 1, k_at, 3), (j_ + 1, k_at), (j_ + 1,)):
+                        return [Fail("not-rectangular:blank-ensemble-collecting-frames", f"step {step}: after {j_ + 1} append(s) of {k_at}-atom {kind_}: coords {shp_[0]}, atomic_charges {shp_[1]}, weights {shp_[2]}")]
+                continue
             elif name == "rotate_bad_stack":
                 # a stack of matrices of the WRONG length (one too many / two too many): refused, or at any rate the three arrays still
                 # describe the same conformers afterwards
@@ -411,6 +423,14 @@ def check(recipe) -> list[Fail]:
                 txt = ens.dumps_xyz()
                 if na and finite and len(ml.Molecule.loads_all_xyz(txt)) != nc:
                     return [Fail("ensemble-dump-frame-count", f"step {step}")]
+                if na and finite and op[1] == "mol2":
+                    # the ensemble-level mol2 writer: block i is conformer i - its coordinates AND its partial charges
+                    blocks = ml.Molecule.loads_all_mol2(ens.dumps_mol2())
+                    if len(blocks) != nc:
+                        return [Fail("ensemble-dump-frame-count:mol2", f"step {step}: {len(blocks)} blocks for {nc} conformers")]
+                    for i, b_ in enumerate(blocks):
+                        if b_.n_atoms != na or not np.allclose(b_.coords, model.coords[i], atol=1e-6, rtol=0) or not np.allclose(b_.atomic_charges, model.charges[i], atol=6e-4, rtol=0):
+                            return [Fail("ensemble-dump-block-is-not-its-conformer:mol2", f"step {step} block {i} of {nc}")]
             elif name == "serialise":
                 via = op[1]
                 if via == "codec":
@@ -521,6 +541,7 @@ def strat(tier):
         st.tuples(st.just("oob_write"), i, i).map(list),
         st.tuples(st.just("append_own"), i, i).map(list),
         st.tuples(st.just("rotate_bad_stack"), i).map(list),
+        st.tuples(st.just("blank_collect"), i).map(list),
         st.tuples(st.just("dump"), st.sampled_from(["xyz", "mol2"])).map(list),
         st.tuples(st.just("serialise"), st.sampled_from(["codec", "pickle", "library"]), st.booleans()).map(list),
     )
